@@ -15,8 +15,25 @@ def cases(draw, ml):
     kinds = None
     base = draw(gen.tree_descs(ml, leaf=LEAF, kinds=kinds))
     sub = gen.tree_descs(4, max_depth=2, leaf=LEAF, min_leaves=2)
-    n = draw(st.sampled_from([2, 2, 2, 3]))
+    n = draw(st.sampled_from([2, 2, 3]))
     trees, rels = [], []
+    if draw(st.integers(0, 5)) == 0:
+        # stratum: nested dict skeleton, both operands extended differently, second operand re-ordered
+        # with the SAME dict kinds (OrderedDict vs OrderedDict, dict vs dict in insertion mode)
+        base = draw(gen.nested_dict_descs())
+        if draw(st.booleans()):
+            root, refs = gen._node_refs(base)
+            for c, i in refs:
+                if c[i][0] in ('dict', 'dd'):
+                    c[i] = ['od', c[i][1] if c[i][0] == 'dict' else c[i][2], []]
+            base = root[0]
+        nl = gen.count_leaves(base)
+        mask = [draw(st.sampled_from([0, 1, 2, 3])) for _ in range(nl)]
+        subs = [draw(sub) for _ in range(nl)]
+        ta = gen.substitute_masked(draw, base, subs, mask, 1)
+        tb = gen.order_variant(draw, gen.substitute_masked(draw, base, subs, mask, 2))
+        return {'trees': [ta, tb], 'rels': ['split_a', 'split_b_reordered'],
+                'cfg': draw(gen.configs(predicates=PREFIX_PREDICATES))}
     if draw(st.integers(0, 5)) == 0:
         ta, tb, e = gen.targeted_near_miss(draw, ml, leaf=LEAF)
         return {'trees': [ta, tb], 'rels': ['base', f'conflict:{e}'], 'cfg': draw(gen.configs(predicates=PREFIX_PREDICATES))}
@@ -34,8 +51,11 @@ def cases(draw, ml):
         subs = [draw(sub) for _ in range(nl)]
         ta = gen.substitute_masked(draw, base, subs, mask, 1)
         tb = gen.substitute_masked(draw, base, subs, mask, 2)
-        if draw(st.booleans()):
+        v = draw(st.integers(0, 2))
+        if v == 1:
             tb = gen.dict_variant(draw, tb)
+        elif v == 2:
+            tb = gen.order_variant(draw, tb)       # same dict kinds, other key order
         trees, rels = [ta, tb], ['split_a', 'split_b']
     for i in range(n - len(trees)):
         rel = draw(st.sampled_from(['base', 'ext', 'ext', 'ext_variant', 'conflict']))
@@ -49,7 +69,10 @@ def cases(draw, ml):
             rel = f'conflict:{e}'
         trees.append(t)
         rels.append(rel)
-    return {'trees': trees, 'rels': rels, 'cfg': draw(gen.configs(predicates=PREFIX_PREDICATES))}
+    cfg = draw(gen.configs(predicates=PREFIX_PREDICATES))
+    if n == 3 and draw(st.booleans()):
+        cfg = dict(cfg, pred=draw(st.sampled_from(['tuple2', 'anydict_has_a', 'is_cg', 'is_nt2'])))   # n-ary law under a predicate
+    return {'trees': trees, 'rels': rels, 'cfg': cfg}
 
 
 class C09(runner.Prop):
